@@ -146,6 +146,9 @@ class DetNames:
 # child processes
 # ----------------------------------------------------------------------------------------------
 
+BAD_TAIL = b"fichier introuvable: caf\xe9\n"  # Latin-1 text: not valid UTF-8
+
+
 class SimPopen:
     """In-process stand-in for subprocess.Popen with the subset of semantics biotite relies on:
     poll(), communicate(timeout) (idempotent after exit), kill() (polls first), returncode, pid, args."""
@@ -163,6 +166,7 @@ class SimPopen:
         self.launch_cwd = os.getcwd()
         self.stdin = stdin
         self.encoding = encoding
+        self.errors = kw.get("errors")
         self.returncode = None
         self.pid = None
         rec.launch_attempts.append(self)
@@ -267,7 +271,20 @@ class SimPopen:
         self.poll()
         if self.state == "killed":
             return "", ""
-        return self._out, self._err
+        return self._out, self.decoded_err()
+
+    def decoded_err(self):
+        """What the pipe reader hands out as STDERR text. A program may print bytes that are not valid in the
+        encoding the wrapper asked for (a message in the locale's 8-bit encoding): like the real Popen, decoding
+        happens on every communicate() call and raises UnicodeDecodeError every time unless an error policy was given."""
+        if not self.rec.script.get("bad_bytes") or self.encoding is None:
+            return self._err
+        w = SimPopen.world
+        if not getattr(self, "_bad_counted", False):
+            self._bad_counted = True
+            w.stats["fault:undecodable-stderr-bytes"] += 1
+        raw = self._err.encode(self.encoding) + BAD_TAIL
+        return raw.decode(self.encoding, self.errors or "strict")
 
     def kill(self):
         SimPopen.world.stats["sim:kill-calls"] += 1
